@@ -27,6 +27,7 @@ func main() {
 	only := flag.String("rule", "", "run only this rule (diagnostic; no evidence written)")
 	explain := flag.String("explain", "", "print a violations file and exit")
 	debug := flag.String("debug", "", "print engine internals (eff|sm) and exit")
+	also := flag.String("also", "", "label:exitcode:logfile of a run of the same check under another build configuration; verdicts must agree")
 	flag.Parse()
 
 	if *explain != "" {
@@ -140,6 +141,19 @@ func main() {
 			res.Explanation = "static obligations discharged by repository-specific rules"
 		}
 		res.Classify(findings)
+		alsoRC := -1
+		if *also != "" {
+			parts := strings.SplitN(*also, ":", 3)
+			if len(parts) == 3 {
+				alsoRC, _ = strconv.Atoi(parts[1])
+				logb, _ := os.ReadFile(parts[2])
+				lines := strings.Split(strings.TrimSpace(string(logb)), "\n")
+				if len(lines) > 12 {
+					lines = lines[:12]
+				}
+				res.Extra["configuration_"+parts[0]] = map[string]interface{}{"exit": alsoRC, "summary": lines}
+			}
+		}
 		res.WallS = time.Since(start).Seconds()
 		_ = t0
 		if *dump {
@@ -157,6 +171,16 @@ func main() {
 			if err := res.WriteEvidence(*out); err != nil {
 				fmt.Fprintf(os.Stderr, "wucheck: write evidence: %v\n", err)
 				os.Exit(2)
+			}
+		}
+		if alsoRC >= 0 {
+			own := 0
+			if len(res.Violations) > 0 || len(res.Internal) > 0 {
+				own = 1
+			}
+			if alsoRC != own {
+				res.Internal = append(res.Internal, fmt.Sprintf("verdict differs between build configurations: host exit %d, %s", own, *also))
+				_ = res.WriteEvidence(*out)
 			}
 		}
 		if len(res.Violations) > 0 || len(res.Internal) > 0 {
